@@ -29,7 +29,7 @@ NOT_APPLICABLE = {
     "C12": "statistical accuracy claim over the output distribution of an external stochastic forward model: there is no "
            "forall-statement to prove, only batches to sample, which this technique family may not substitute for a theorem",
 }
-HOOK_COMMITS = ["73ba0d54d0fb8567788edea16642a1256faee1af"]
+HOOK_COMMITS = ["73ba0d54d0fb8567788edea16642a1256faee1af", "f8177ee9c91e9dad27a853b6a01583f9a3b02f8c"]
 
 def load_props():
     """tools/propcfg/Cxx.py each define CFG (one file per property, so that work on different
@@ -224,7 +224,18 @@ def run(pid, tier, seed):
             if h_dev is None:
                 h_exe, hout = None, hout2
     import pin
-    if gerr and (cfg.get("uses_gen") or pid in pin.PINS):
+    if gerr:
+        # only the plugins whose output this property uses matter to it
+        file_plugin = {"Boards": "boards", "WireMaps": "maps", "PadMaps": "maps", "Calib": "calib", "Drift": "drift",
+                       "CrossTalk": "crosstalk"}
+        needed = {file_plugin.get(f, f) for f in pin.PINS.get(pid, [])} | set(cfg.get("needs_gen", [])) | {"plugins"}
+        mine = {k: v for k, v in gen.LAST_ERRORS.items() if k in needed}
+        if not mine and gen.LAST_ERRORS:
+            notes.append("translator plugins not used by this property failed: " + gerr)
+            gerr = None
+        elif mine:
+            gerr = "; ".join("%s: %s" % kv for kv in sorted(mine.items()))
+    if gerr and (cfg.get("uses_gen") or pid in pin.PINS or cfg.get("needs_gen")):
         coq["ok"] = False
         coq["failed"] = "translator could not regenerate coq/Gen from the current source: " + gerr
     # configuration pin (tools/pin.py): table entries and run-number arms have no specification in the repository;
